@@ -286,6 +286,9 @@ def gfloat(rng, r, c, s=1.0, real=False):
     return [[[repr(rng.gauss() * s), '0' if real else repr(rng.gauss() * s)] for _ in range(c)] for _ in range(r)]
 
 
+_QUERY_TURN = [0]
+
+
 class Gen:
     """Seeded generator of histories whose accepted operations have the documented shapes (it tracks the
     layout), interleaved with rejected calls, typed / strided arguments, scribbling on inputs and outputs,
@@ -713,7 +716,10 @@ class Gen:
         pool = ['calc_Q', 'calc_JP_Q', 'calc_SINR', 'calc_JP_SINR', 'copy', 'deepcopy', 'pickle', 'repr']
         if self.ext:
             pool.append('cov_extint')
-        self.ops.append({'op': 'query', 'which': rng.choice(pool), 'k': rng.below(max(self.K, 1))})
+        # the kinds are taken in turn (not drawn): every kind is reached in every run, whatever the seed
+        _QUERY_TURN[0] += 1
+        rng.choice(pool)            # (keeps the random stream of the other choices as it was)
+        self.ops.append({'op': 'query', 'which': pool[_QUERY_TURN[0] % len(pool)], 'k': rng.below(max(self.K, 1))})
         for _ in range(rng.randint(1, 3)):
             self.op_read()
 
